@@ -1,0 +1,9 @@
+//go:build verif
+
+package tbtcpg
+
+// VerifNewProposalGenerator builds a ProposalGenerator over the given tasks
+// (the production constructor fixes the task list).
+func VerifNewProposalGenerator(tasks []ProposalTask) *ProposalGenerator {
+	return &ProposalGenerator{tasks: tasks}
+}
